@@ -102,6 +102,56 @@ class ClashCred(ACred):
     auth_id: int = dataclasses.field(init=False, repr=False, default=0)  # simple
 
 
+@dataclasses.dataclass(frozen=True)
+class VendorPaged(L.PagedResultControl):
+    """An application control derived from a control class the library knows (same value syntax, its own OID)."""
+
+    control_type: str = dataclasses.field(init=False, repr=False, default="1.2.3.99")
+
+    @classmethod
+    def unpack(cls, control_type: str, critical: bool, value: t.Optional[bytes], options: L.ControlOptions) -> "VendorPaged":
+        base = L.PagedResultControl.unpack(control_type, critical, value, options)
+        return VendorPaged(critical=base.critical, size=base.size, cookie=base.cookie)
+
+
+@dataclasses.dataclass(frozen=True)
+class BaseF(L.LDAPFilter):
+    """Application base class: the codec lives here, concrete filters only choose their number."""
+
+    filter_id: int = dataclasses.field(init=False, repr=False, default=1030)
+    value: str
+
+    def pack(self, writer: asn1.ASN1Writer, options: L.FilterOptions) -> None:
+        writer.write_octet_string(self.value.encode(options.string_encoding), tag=asn1.ASN1Tag(asn1.TagClass.CONTEXT_SPECIFIC, self.filter_id, False))
+
+    @classmethod
+    def unpack(cls, reader: asn1.ASN1Reader, options: L.FilterOptions) -> "BaseF":
+        return cls(value=reader.read_octet_string(asn1.ASN1Tag(asn1.TagClass.CONTEXT_SPECIFIC, cls.filter_id, False)).decode(options.string_encoding))
+
+
+@dataclasses.dataclass(frozen=True)
+class DerivedF(BaseF):
+    filter_id: int = dataclasses.field(init=False, repr=False, default=1031)
+
+
+@dataclasses.dataclass(frozen=True)
+class BaseCred(L.AuthenticationCredential):
+    auth_id: int = dataclasses.field(init=False, repr=False, default=1030)
+    token: str
+
+    def pack(self, writer: asn1.ASN1Writer, options: L.AuthenticationOptions) -> None:
+        writer.write_octet_string(self.token.encode(options.string_encoding), tag=asn1.ASN1Tag(asn1.TagClass.CONTEXT_SPECIFIC, self.auth_id, False))
+
+    @classmethod
+    def unpack(cls, reader: asn1.ASN1Reader, options: L.AuthenticationOptions) -> "BaseCred":
+        return cls(token=reader.read_octet_string(tag=asn1.ASN1Tag(asn1.TagClass.CONTEXT_SPECIFIC, cls.auth_id, False)).decode(options.string_encoding))
+
+
+@dataclasses.dataclass(frozen=True)
+class DerivedCred(BaseCred):
+    auth_id: int = dataclasses.field(init=False, repr=False, default=1031)
+
+
 OPT = K.OPTS
 RES = L.LDAPResult(L.LDAPResultCode.SUCCESS, "", "", None)
 REQ_X = L.SearchRequest(1, [XControl(True, 7)], "", L.SearchScope.BASE, L.DereferencingPolicy.NEVER, 0, 0, False, L.FilterPresent("a"), []).pack(OPT)
@@ -412,6 +462,85 @@ def config_check(sub_a: t.Tuple[str, ...], sub_b: t.Tuple[str, ...]) -> t.List[t
     return out
 
 
+def derived_types_check() -> t.List[t.Tuple[str, str]]:
+    """Application types built the way applications build them: a control derived from a library-known control class, a
+    filter / credential whose codec is inherited from an application base class; and sessions that register types of two
+    different kinds, in either order.  Each type takes effect in exactly the session that registered it; a session created
+    afterwards starts from the library's defaults (it does not decode the type and may register it itself)."""
+    out: t.List[t.Tuple[str, str]] = []
+    SR = lambda ctrls, flt: L.SearchRequest(1, ctrls, "", L.SearchScope.BASE, L.DereferencingPolicy.NEVER, 0, 0, False, flt, [])  # noqa: E731
+    samples = {
+        "VendorPaged": ("register_control", VendorPaged, SR([VendorPaged(True, 5, b"ck")], L.FilterPresent("a")).pack(OPT), lambda m: m.controls[0]),
+        "DerivedF": ("register_filter", DerivedF, SR([], L.FilterAnd([DerivedF("v"), L.FilterPresent("a")])).pack(OPT), lambda m: m.filter.filters[0]),
+        "DerivedCred": ("register_auth_credential", DerivedCred, L.BindRequest(1, [], 3, "", DerivedCred("tok")).pack(OPT), lambda m: m.authentication),
+        "XControl": ("register_control", XControl, REQ_X, lambda m: m.controls[0]),
+        "FFilter": ("register_filter", FFilter, REQ_F, lambda m: m.filter.filter),
+        "ACred": ("register_auth_credential", ACred, REQ_A, lambda m: m.authentication),
+    }
+
+    def decodes_as(s: t.Any, name: str) -> t.Optional[bool]:
+        _meth, cls, wire, pick = samples[name]
+        try:
+            got = pick(copy.deepcopy(s).receive(wire)[0])
+        except L.ProtocolError:
+            return False  # an unknown filter / credential choice cannot be represented: refused
+        except BaseException:  # noqa: BLE001
+            return None
+        return type(got) is cls
+
+    def reg(s: t.Any, name: str, where: str) -> bool:
+        try:
+            getattr(s, samples[name][0])(samples[name][1])
+            return True
+        except ValueError as e:
+            out.append((f"fresh-registration-refused:{name}", f"{where}: registering {name} was refused: {e}"))
+            return False
+
+    names = list(samples)
+    for first in names:
+        for second in [None] + [n for n in names if n != first]:
+            mk = L.LDAPServer
+            before = mk()
+            a = mk()
+            label = f"a session that registered {first}" + (f" then {second}" if second else "")
+            if not reg(a, first, "a fresh session") or (second and not reg(a, second, label)):
+                continue
+            after = mk()
+            for n in names:
+                mine = n in (first, second)
+                got = decodes_as(a, n)
+                if got is None or got != mine:
+                    out.append((f"{'registered-type-not-decoded' if mine else 'unregistered-type-decoded'}:{n}:own-session", f"{label} decodes {n}: {got}"))
+                for other, when in ((before, "created before"), (after, "created after")):
+                    if decodes_as(other, n) is not False:
+                        out.append((f"unregistered-type-decoded:{n}:{when.replace(' ', '-')}", f"a session {when} {label} decodes {n} although it never registered it"))
+            # the later session is as good as new: it can register the same types itself, and then decodes them
+            for n in (first, second):
+                if n and reg(after, n, f"a session created after {label}") and decodes_as(after, n) is not True:
+                    out.append((f"registered-type-not-decoded:{n}:later-session", f"a session created after {label} registered {n} itself but does not decode it"))
+    return out
+
+
+def _registration_refused(e: BaseException) -> bool:
+    tb = e.__traceback__
+    while tb is not None:
+        if tb.tb_frame.f_code.co_name.startswith("register_"):
+            return True
+        tb = tb.tb_next
+    return False
+
+
+def _guarded(label: str, fn: t.Callable[[], t.List[t.Tuple[str, str]]]) -> t.List[t.Tuple[str, str]]:
+    """The sub-checks register application types on sessions they have just created; a library that refuses that has
+    leaked a registration from an earlier session -- a finding, not a reason for the check to stop."""
+    try:
+        return fn()
+    except ValueError as e:
+        if not _registration_refused(e):
+            raise
+        return [(f"fresh-registration-refused:{label}", f"during {label}: a registration on a newly created session was refused: {e}")]
+
+
 def generations_check(rounds: int = 120) -> t.List[t.Tuple[str, str]]:
     """Sessions come and go: a new session must not inherit anything from one that was dropped -- in particular
     not when it lands on the same address with the same number of registrations of a different type."""
@@ -501,7 +630,12 @@ VICTIMS: t.Dict[str, t.List[t.Tuple[str, ...]]] = {
 def neighbours_check(alone_table: t.Dict[t.Any, t.Any]) -> t.List[t.Tuple[str, str]]:
     out: t.List[t.Tuple[str, str]] = []
     for name, noise in noisy_neighbours():
-        noise()
+        try:
+            noise()
+        except ValueError as e:
+            # the neighbours are fresh sessions doing ordinary things (registering a type, receiving): one of them being
+            # refused means it met something an earlier session left behind
+            out.append((f"neighbour-refused:{name}", f"while other sessions did '{name}': {type(e).__name__}: {e}"))
         for role, hs in VICTIMS.items():
             for h in hs:
                 got = alone((role, h))
@@ -544,7 +678,7 @@ def _configs(job: t.Tuple[int, int]) -> evid.Local:
         loc.add("states")
         loc.add("transitions", 12)
         loc.distinct.add(("config", sa, sb))
-        for k, w in config_check(sa, sb):
+        for k, w in _guarded("configurations", lambda: config_check(sa, sb)):
             loc.violation(k, w, {"config": [list(sa), list(sb)]})
     return loc
 
@@ -631,11 +765,15 @@ def run(ctx: evid.Ctx) -> None:
     for (r, h), exp in list(_X["alone"].items())[:: max(1, len(_X["alone"]) // 400)]:
         if alone((r, h)) != exp:
             ctx.violation(f"alone-transcript-changed:{r}:{h[-1]}", f"{r} history {h} no longer behaves as in a pristine process", {"roles": [r, r], "ha": list(h), "hb": [], "order": [0] * len(h)})
-    for k, w in neighbours_check(_X["alone"]):
+    for k, w in _guarded("neighbours", lambda: neighbours_check(_X["alone"])):
         ctx.violation(k, w, {"neighbours": True})
     ctx.add("states", 4 * sum(len(v) for v in VICTIMS.values()) + 3)
     ctx.add("transitions", 2000)
-    for k, w in generations_check():
+    for k, w in _guarded("derived-types", derived_types_check):
+        ctx.violation(k, w, {"derived": True})
+    ctx.add("states", 36)
+    ctx.add("transitions", 36 * 30)
+    for k, w in _guarded("generations", generations_check):
         ctx.violation(k, w, {"generations": True})
     ctx.add("states", 120)
     ctx.add("transitions", 360)
@@ -663,7 +801,7 @@ def replay(case: t.Dict[str, t.Any], key: t.Optional[str] = None) -> t.Tuple[boo
         vs = [v for v in neighbours_check(table) if key is None or v[0] == key]
         return (not vs), "sessions observed after / next to busy or failing neighbours" + "".join(f"\n  {k}: {w}" for k, w in vs[:5])
     if case.get("generations"):
-        vs = [v for v in generations_check() if key is None or v[0] == key]
+        vs = [v for v in (derived_types_check() if case.get("derived") else generations_check()) if key is None or v[0] == key]
         return (not vs), "sessions created and dropped in sequence" + "".join(f"\n  {k}: {w}" for k, w in vs[:5])
     if "config" in case:
         vs = config_check(tuple(case["config"][0]), tuple(case["config"][1]))
